@@ -241,6 +241,82 @@ func (w *world) identities(i int, st step) *verdict {
 	return nil
 }
 
+// wrongMessage builds the packet for a protocol misuse: "garbage" = the awaited kind with an undecodable
+// payload, otherwise a well-formed message of another kind
+func (w *world) wrongMessage(what string, awaited uint16, other uint16, from []byte) *network.Packet {
+	sub := awaited
+	var payload []byte
+	switch what {
+	case "garbage":
+		if w.rnd.Intn(2) == 0 {
+			payload = []byte{0xc1, 0xff, 0x00} // not a value of the codec
+		} else { // a valid value followed by extra bytes
+			payload = append(codec.MP.MustMarshalToBytes(&network.SignatureRequest{PublicKey: []byte{1}, Signature: []byte{2}}), 0x01, 0x02)
+		}
+	case "securerequest":
+		sub = network.VerifAuthSecureRequest
+		payload = codec.MP.MustMarshalToBytes(&network.SecureRequest{Channel: channel, SecureSuites: []network.SecureSuite{w.suite},
+			SecureAeadSuites: []network.SecureAeadSuite{w.aead}, SecureParam: []byte{4}})
+	case "secureresponse":
+		sub = network.VerifAuthSecureResponse
+		payload = codec.MP.MustMarshalToBytes(&network.SecureResponse{Channel: channel, SecureSuite: w.suite, SecureAeadSuite: w.aead, SecureParam: []byte{4}})
+	case "othersig", "earlysig":
+		sub = other
+		n := w.nodes["a"]
+		payload = codec.MP.MustMarshalToBytes(&network.SignatureRequest{PublicKey: n.w.PublicKey(), Signature: n.a.Signature([]byte("no session secret"))})
+	}
+	return network.VerifNewPacket(network.VerifPacket{Protocol: network.VerifProtoAuth, SubProtocol: sub, Src: from,
+		Dest: network.VerifDestPeer, TTL: 1, Payload: payload})
+}
+
+// refused: after a misuse the connection must be closed and must not have been handed on
+func refused(n *node, p *network.Peer, desc, res string) *verdict {
+	if id, ok := n.accepted[p]; ok {
+		return &verdict{"authenticator:accepted:misuse:" + res[6:], desc + fmt.Sprintf(": the peer was handed on with identity %v, spec says %s", id, res), true}
+	}
+	if !p.IsClosed() {
+		return &verdict{"handshake:not-closed", desc + ": spec says " + res + ", the connection stays open", false}
+	}
+	return nil
+}
+
+func (w *world) misuse(i int, st step) *verdict {
+	se := w.sess[st.S]
+	desc := fmt.Sprintf("step %d: session %d, %s sent to the %s side", i, st.S, st.Pkf, st.Sf)
+	if st.Sf == "a" { // the acceptor waits for the SignatureRequest
+		network.VerifAuthOnPacket(se.acceptor.a, w.wrongMessage(st.Pkf, network.VerifAuthSignatureRequest, network.VerifAuthSignatureResponse, se.dialer.idb), se.pa)
+		return refused(se.acceptor, se.pa, desc, st.Res)
+	}
+	network.VerifAuthOnPacket(se.dialer.a, w.wrongMessage(st.Pkf, network.VerifAuthSignatureResponse, network.VerifAuthSignatureRequest, se.acceptor.idb), se.pd)
+	return refused(se.dialer, se.pd, desc, st.Res)
+}
+
+// freshMisuse: the attacker opens a connection to the acceptor and starts with something else than a proper SecureRequest
+func (w *world) freshMisuse(i int, st step) *verdict {
+	b := w.nodes["b"]
+	se := &session{dialer: w.nodes["m"], acceptor: b, replayOf: -1}
+	w.sess[st.S] = se
+	_, cb, _, _ := securechan.NewPipe(nil)
+	cb.Blocking, cb.BlockFor = true, 20*time.Second
+	se.pa = network.VerifAuthNewPeer(cb, true, "")
+	network.VerifAuthOnPeer(b.a, se.pa)
+	var pkt *network.Packet
+	switch st.Pkf {
+	case "earlysig":
+		pkt = w.wrongMessage("earlysig", 0, network.VerifAuthSignatureRequest, w.nodes["m"].idb)
+	case "badparam":
+		bad := [][]byte{{0x04, 1, 2, 3}, {}, bytes.Repeat([]byte{0x04}, 65)}[w.rnd.Intn(3)]
+		pkt = network.VerifNewPacket(network.VerifPacket{Protocol: network.VerifProtoAuth, SubProtocol: network.VerifAuthSecureRequest,
+			Src: w.nodes["m"].idb, Dest: network.VerifDestPeer, TTL: 1,
+			Payload: codec.MP.MustMarshalToBytes(&network.SecureRequest{Channel: channel, SecureSuites: []network.SecureSuite{w.suite},
+				SecureAeadSuites: []network.SecureAeadSuite{w.aead}, SecureParam: bad})})
+	default:
+		pkt = w.wrongMessage("garbage", network.VerifAuthSecureRequest, 0, w.nodes["m"].idb)
+	}
+	network.VerifAuthOnPacket(b.a, pkt, se.pa)
+	return refused(b, se.pa, fmt.Sprintf("step %d: fresh connection %d starting with %s", i, st.S, st.Pkf), st.Res)
+}
+
 func (w *world) pubKey(owner, form string) []byte {
 	pk := w.nodes[owner].w.PublicKey()
 	switch form {
@@ -417,6 +493,10 @@ func runBehaviour(steps []step, rnd *rand.Rand) *verdict {
 			v = w.deliver(i, st)
 		case "churn":
 			v = w.otherIDs(150)
+		case "misuse":
+			v = w.misuse(i, st)
+		case "freshmisuse":
+			v = w.freshMisuse(i, st)
 		}
 		if v == nil {
 			v = w.identities(i, st)
@@ -461,6 +541,7 @@ func TestReplay(t *testing.T) {
 			}
 		}
 		id := fmt.Sprintf("b%d", idx)
+		out.Begin(id, "authenticator:crash") // a panic of a handler is attributed to this behaviour
 		v := runBehaviour(steps, rand.New(rand.NewSource(sub)))
 		detail := map[string]interface{}{"behaviour": steps, "sub": sub}
 		if v == nil {
